@@ -632,10 +632,12 @@ def inline_private_helpers(tree):
                         ncalls[(cls, nm)] += 1
     def _size(v):
         return sum(isinstance(y, ast.stmt) for x in v[1] for y in ast.walk(x))
-    # used once: up to 25 statements; used a few times: tiny helpers only
+    # used once: up to 25 statements; module-level functions used a few
+    # times: tiny helpers only (methods are often roles of their own)
     cands = {k: v for k, v in cands.items()
              if refs[k] == ncalls[k] and (
-                 refs[k] == 1 or (2 <= refs[k] <= 6 and _size(v) <= 6))}
+                 refs[k] == 1 or (k[0] is None and 2 <= refs[k] <= 6
+                                  and _size(v) <= 6))}
     if not cands:
         return 0
     done_calls = {k: 0 for k in cands}
